@@ -4,6 +4,7 @@ import (
 	"fmt"
 	"go/token"
 	"go/types"
+	"regexp"
 	"sort"
 	"strings"
 
@@ -114,7 +115,7 @@ func render(v ssa.Value, depth int) string {
 		case token.MUL:
 			switch b := x.X.(type) {
 			case *ssa.FieldAddr:
-				return render(b.X, depth+1) + "." + FieldOf(b).Name()
+				return render(b.X, depth+1) + "." + FieldName(FieldOf(b))
 			case *ssa.FreeVar:
 				if n := canonicalCell(b); n != "" {
 					return n
@@ -146,9 +147,9 @@ func render(v ssa.Value, depth int) string {
 		}
 		return x.Op.String() + render(x.X, depth+1)
 	case *ssa.FieldAddr:
-		return "&" + render(x.X, depth+1) + "." + FieldOf(x).Name()
+		return "&" + render(x.X, depth+1) + "." + FieldName(FieldOf(x))
 	case *ssa.Field:
-		return render(x.X, depth+1) + "." + FieldOf(x).Name()
+		return render(x.X, depth+1) + "." + FieldName(FieldOf(x))
 	case *ssa.IndexAddr:
 		return "&" + render(x.X, depth+1) + "[" + render(x.Index, depth+1) + "]"
 	case *ssa.Index:
@@ -269,8 +270,12 @@ func render(v ssa.Value, depth int) string {
 }
 
 func shortType(t types.Type) string {
-	return types.TypeString(t, func(p *types.Package) string { return p.Name() })
+	s := types.TypeString(t, func(p *types.Package) string { return p.Name() })
+	// `any` is an alias of interface{}: one spelling
+	return anyWord.ReplaceAllString(s, "interface{}")
 }
+
+var anyWord = regexp.MustCompile(`\bany\b`)
 
 // Atom is one branch condition on a path, normalised: Rel ∈ {"<","<=","==","!=","true","false"}.
 // Comparisons are flipped so that only < and <= occur ( a>b ⇒ b<a ; ¬(a<b) ⇒ b<=a ).
@@ -1023,8 +1028,45 @@ func neverNil(v ssa.Value) bool {
 				return true
 			}
 		}
+	case *ssa.UnOp:
+		// a package-level sentinel: assigned once, in the package initialiser, a value that is never nil
+		if g, ok := x.X.(*ssa.Global); ok && x.Op == token.MUL {
+			return sentinelGlobal(g)
+		}
 	}
 	return false
+}
+
+var sentinelCache = map[*ssa.Global]bool{}
+
+func sentinelGlobal(g *ssa.Global) bool {
+	if v, ok := sentinelCache[g]; ok {
+		return v
+	}
+	sentinelCache[g] = false
+	pkg := g.Pkg
+	if pkg == nil {
+		return false
+	}
+	stores, good := 0, 0
+	for _, mem := range pkg.Members {
+		fn, ok := mem.(*ssa.Function)
+		if !ok {
+			continue
+		}
+		for _, f := range WithAnon(fn) {
+			AllInstrs(f, func(in ssa.Instruction) {
+				if st, ok := in.(*ssa.Store); ok && st.Addr == ssa.Value(g) {
+					stores++
+					if fn.Name() == "init" && neverNil(st.Val) {
+						good++
+					}
+				}
+			})
+		}
+	}
+	sentinelCache[g] = stores == 1 && good == 1
+	return sentinelCache[g]
 }
 
 // pinnedParam: the name the parameter has on the pinned tree (same function — possibly renamed —, same position).
